@@ -83,7 +83,7 @@ func RunSelfTests(id, repoDir, seedsDir, exe, knownPath string) {
 		return
 	}
 	results := make([]SelfTestResult, len(names))
-	sem := make(chan struct{}, 3)
+	sem := make(chan struct{}, 4) // four children of four threads each: more threads per child only add scheduler and GC overhead
 	var wg sync.WaitGroup
 	for i, name := range names {
 		wg.Add(1)
@@ -162,7 +162,7 @@ func runOneSelfTest(id, name, repoDir, seedsDir, exe, knownPath string) (res Sel
 	if overlay {
 		cmd = exec.Command(exe, "-repo", repoDir, "-overlay", tree, "-prop", id, "-tier", "quick", "-out", ev, "-known", knownPath)
 	}
-	cmd.Env = append(os.Environ(), "GOFLAGS=-mod=mod", "GOPROXY=off", "GOSUMDB=off", "GOTOOLCHAIN=local", "GOWORK=off")
+	cmd.Env = append(os.Environ(), "GOFLAGS=-mod=mod", "GOPROXY=off", "GOSUMDB=off", "GOTOOLCHAIN=local", "GOWORK=off", "GOMAXPROCS=4")
 	out, _ := cmd.CombinedOutput()
 	code := 0
 	if cmd.ProcessState != nil {
